@@ -255,25 +255,41 @@ def slope_cache_dropped_between_calls(repo, run, rule_id="C06.17"):
     m = IntegrateModel(repo)
     kl = path_key(m.loop, m.fn)
     dropped = {}
+    cands = []
     for st in m.fn.body:
         if path_key(st, m.fn) >= kl:
             break
+        cands.append(st)
+        # the drop moved into a method of the system that integrate() calls unconditionally before the loop: its top-level statements count
+        if isinstance(st, ast.Expr) and isinstance(st.value, ast.Call) and (dotted(st.value.func) or "").startswith("self.") and not st.value.args and not st.value.keywords:
+            h = repo.maybe(DS, "OdeSystem." + dotted(st.value.func).split(".", 1)[1])
+            if h is not None:
+                cands.extend(h.body)
+
+    def who_of(it):
+        who = set()
+        for x in ast.walk(it):
+            if isinstance(x, ast.Attribute) and src(x) == "self.integrator":
+                par = getattr(x, "_parent", None)
+                if isinstance(par, ast.Attribute) or (isinstance(par, ast.Call) and fname(par) == "getattr" and par.args and par.args[0] is x):
+                    if "basis_integrators" in src(par):
+                        who.add("basis")
+                else:
+                    who.add("self")
+        return who
+    for st in cands:
         if isinstance(st, ast.Assign) and isinstance(st.value, ast.Constant) and st.value.value is None:
             for t in st.targets:
                 if isinstance(t, ast.Attribute) and src(t.value) == "self.integrator":
                     dropped.setdefault(t.attr, set()).add("self")
-        if isinstance(st, ast.For) and isinstance(st.target, ast.Name) and isinstance(st.iter, (ast.Tuple, ast.List)) and not st.orelse:
-            who = set()
-            for e in st.iter.elts:
-                if src(e) == "self.integrator":
-                    who.add("self")
-                if isinstance(e, ast.Starred) and "basis_integrators" in src(e.value) and "self.integrator" in src(e.value):
-                    who.add("basis")
+        if isinstance(st, ast.For) and isinstance(st.target, ast.Name) and not st.orelse:
+            who = who_of(st.iter)
             for b in st.body:
                 if isinstance(b, ast.Assign) and isinstance(b.value, ast.Constant) and b.value.value is None:
                     for t in b.targets:
                         if isinstance(t, ast.Attribute) and isinstance(t.value, ast.Name) and t.value.id == st.target.id:
                             dropped.setdefault(t.attr, set()).update(who)
+            # a loop over the basis integrators only (the wrapper itself dropped by a direct assignment)
     if not reused:
         run.judged(rid, "no integrator reuses a kept slope", ok=True)
     for attr, sites in sorted(reused.items()):
